@@ -199,6 +199,50 @@ func runStringifyA1(r *core.Run, cache *sigCache, bounds map[string]interface{})
 	return true
 }
 
+// ---------- family S: aliasing (the same object identity in two positions: a DAG that is not a tree) ----------
+
+// aliasValues: for every leaf L of the alphabet the values in which ONE L occurs twice (array siblings, object
+// siblings, parent + cousin at depth 2), and the values in which one CONTAINER holding L ([L], {a:L}, {a:L,b:1})
+// occurs twice. Sharing is not a cycle: the expected results are those of the unshared tree.
+func aliasValues() listSpace {
+	one := leafNode("1")
+	arr := func(k ...*Node) *Node { return &Node{Kind: "arr", Kids: k} }
+	obj := func(keys []string, k ...*Node) *Node { return &Node{Kind: "obj", Keys: keys, Kids: k} }
+	var l listSpace
+	for _, it := range leavesFull {
+		x := &Node{Leaf: it.name, Share: 1}
+		l = append(l,
+			arr(x, x), arr(x, one, x), obj([]string{"a", "b"}, x, x),
+			arr(arr(x), x), arr(x, arr(x)), obj([]string{"a", "c"}, obj([]string{"b"}, x), x),
+			arr(obj([]string{"a"}, x), arr(x)), arr(x, obj([]string{"a"}, x)))
+	}
+	for _, it := range leavesFull {
+		y := leafNode(it.name)
+		for _, c := range []*Node{
+			{Kind: "arr", Kids: []*Node{y}, Share: 1},
+			{Kind: "obj", Keys: []string{"a"}, Kids: []*Node{y}, Share: 1},
+			{Kind: "obj", Keys: []string{"a", "b"}, Kids: []*Node{y, one}, Share: 1},
+		} {
+			l = append(l, arr(c, c), obj([]string{"a", "b"}, c, c), arr(arr(c), c), arr(c, one, c))
+		}
+	}
+	return l
+}
+
+func runStringifyAlias(r *core.Run, cache *sigCache, bounds map[string]interface{}) bool {
+	if tierLevel == 1 {
+		return true // identical in both tiers
+	}
+	sp := aliasValues()
+	cs := combos(pick(replacers, []string{"none", "fn:id", "list:a", "fn:del", "fn:empties", "list:b,a,b", "fn:holder", "fn:box", "fn:desc"}), pick(indents, []string{"absent", "1", "ab"}), true)
+	if !runSpace(r, cache, "stringify-S", sp, cs, true) {
+		bounds[bkey("stringify S (aliasing)")] = "cut by deadline"
+		return false
+	}
+	bounds[bkey("stringify S (aliasing)")] = fmt.Sprintf("%d values: each of the %d leaves shared between two positions ([x,x] [x,1,x] {a:x,b:x} [[x],x] [x,[x]] {a:{b:x},c:x} [{a:x},[x]] [x,{a:x}]) and each container [y] {a:y} {a:y,b:1} over the %d leaves shared ([c,c] {a:c,b:c} [[c],c] [c,1,c]) x %d replacer x indent combinations, + MarshalJSON + parse(stringify(v))", sp.Size(), len(leavesFull), len(leavesFull), len(cs))
+	return true
+}
+
 // A2: containers of 2 children over the full leaf alphabet
 func runStringifyA2(r *core.Run, cache *sigCache, bounds map[string]interface{}) bool {
 	full := leafSpace(allLeafNames())
